@@ -67,6 +67,19 @@ theorem raw_correct (nvars : Nat) (regs : List (List Byte)) (ops : List (XOp × 
   exact ⟨_, st.bufs[v].data, hb, contents_state hp.1 (hlen ▸ hv), hp.2.1.2 v _ hb,
     fun ho => terminator_of_inv hp.1 hb ho⟩
 
+/-- **Capacity policy bound for mixed histories** (`capacity_policy_bound` extended to the raw operations): after any mixed
+    history every `_capacity` is at most the largest size an operation requested (`Spec.demandX`: for a raw argument of
+    `len` bytes the size of the result) or the environment wished for. -/
+theorem capacity_policy_bound_raw (nvars : Nat) (regs : List (List Byte)) (ops : List (XOp × Nat)) (st : State)
+    (hrun : runX (init nvars regs) ops = some st) (v : Nat) (b : Buf) (hb : st.getBuf v = some b) :
+    b.cap ≤ Spec.peakX regs (Spec.init nvars) ops := by
+  have h0 : CapLe 0 (init nvars regs) := by
+    intro u bu hu
+    obtain ⟨_, rfl⟩ := init_bufs nvars regs u bu hu
+    simp [Buf.default]
+  have := runX_cap ops (init_inv nvars regs) (init_rel nvars regs) hrun h0 v b hb
+  simpa [init] using this
+
 /-- a range that is not inside the block of the variable is not an argument the model accepts: the raw operation
     faults (so `WFRunX` asks for nothing that the model does not need) -/
 theorem raw_outside_block_faults (st : State) (k v back fwd len : Nat) (b : Buf) (hb : st.getBuf v = some b)
